@@ -80,7 +80,7 @@ def generate(tier, seed):
     for sq in seqs:
         body = []
         for j, (op, k) in enumerate(sq):
-            if op == "put": body.append("(puthash %s %d h)" % (k, j + 1))
+            if op == "put": body.append("(puthash %s %s h)" % (k, str(j + 1) if (j * 7 + len(k)) % 4 else ["nil", "t", "0", "'()"][(j + len(k)) % 4]))
             elif op == "put2": body.append("(puthash %s '(v %d) h2)" % (k, j))
             else: body.append("(gethash %s h)" % k)
         lines += ["NEW", pre + " (setq h2 (make-hash-table))", "EVAL (list %s)" % " ".join(body),
